@@ -16,7 +16,7 @@ structure Inv (s : St) : Prop where
   sched : s.onSched = true → ∀ u ∈ s.ults, s.ustat u ≠ .running
   oneRun : ∀ u ∈ s.ults, ∀ v ∈ s.ults, s.ustat u = .running → s.ustat v = .running → u = v
 
-theorem inv_init (ults : List Id) (a : Bool) : Inv (init ults a) := by
+theorem inv_init (ults : List RId) (a : Bool) : Inv (init ults a) := by
   constructor
   · rfl
   · rfl
@@ -36,7 +36,7 @@ theorem inv_init (ults : List Id) (a : Bool) : Inv (init ults a) := by
       · cases hv
     · cases hu
 
-theorem inv_request (s s' : St) (u x : Id) (h : Inv s) (hno : s.rsched s.cur = none)
+theorem inv_request (s s' : St) (u x : RId) (h : Inv s) (hno : s.rsched s.cur = none)
     (hs : step s (.request u x) = some s') : Inv s' := by
   have hw : s.rwaiter s.cur = none := h.both.mp hno
   simp only [step] at hs
@@ -90,7 +90,7 @@ theorem inv_request (s s' : St) (u x : Id) (h : Inv s) (hno : s.rsched s.cur = n
           exact h.oneRun a ha b hb hra hrb
   · cases hs
 
-theorem inv_run (s s' : St) (u : Id) (h : Inv s) (hs : step s (.run u) = some s') : Inv s' := by
+theorem inv_run (s s' : St) (u : RId) (h : Inv s) (hs : step s (.run u) = some s') : Inv s' := by
   simp only [step] at hs
   split at hs
   · rename_i hc
@@ -130,7 +130,7 @@ theorem inv_run (s s' : St) (u : Id) (h : Inv s) (hs : step s (.run u) = some s'
         exact absurd hra (hsa a ha)
   · cases hs
 
-theorem inv_yield_finish (s s' : St) (u : Id) (st : UStat) (hst' : st = .ready ∨ st = .done) (h : Inv s)
+theorem inv_yield_finish (s s' : St) (u : RId) (st : UStat) (hst' : st = .ready ∨ st = .done) (h : Inv s)
     (hc : s.onSched = false ∧ u ∈ s.ults ∧ s.ustat u = .running)
     (hs : s' = { s with ustat := upd s.ustat u st, onSched := true }) : Inv s' := by
   obtain ⟨h1, h2, h3⟩ := hc
